@@ -8,7 +8,7 @@ from vf import skel as _sk
 from checks.C21 import pos_ok, PROGRAMS
 '''
 
-GAPS = [" ", "\n", "\n  ", "  ", "\n\n", " ; c\n ", "\t"]
+GAPS = [" ", "\n", "\n  ", "  ", "\n\n", " ; c\n ", "\t", "\r\n", " \r\n  "]
 
 # programs as lists of tokens; a gap goes between consecutive tokens marked with None
 PROGRAMS = [
@@ -20,6 +20,9 @@ PROGRAMS = [
     ["#^", None, "int", None, "x", None, "(", ".", None, "a", None, "b", None, "[", "c", "]", ")"],
     ["\"multi\nline\nstring\"", None, "(", "f", None, "\"x\ny\"", None, "z", ")", None, "end"],
     ["(", "a", None, "(", "b", None, "(", "c", ")", ")", None, "[", "]", None, "(", ")", ")"],
+    # the same sugar several times (each occurrence builds its own head symbol), carriage returns inside literals
+    ["'", "a", None, "(", "f", None, "'", "b", None, "'", "(", "c", ")", ")", None, "`", "d", None, "`", "(", "e", None, "~", "g", None, "~", "h", ")", None, "#*", None, "i", None, "#*", None, "j"],
+    ["\"x\ry\"", None, "(", "p", None, "#[[a\r\nb]]", None, "q", ")", None, "\"u\r\nv\"", None, "'", "w", None, "end"],
 ]
 
 
@@ -56,7 +59,15 @@ def walk(text, m, parent, acc, errs):
         for ci, ch in enumerate(m):
             if sugar and (ci == 0 or "." in reg.split()[0] and not reg.startswith(("'", "`", "~", "#"))):
                 # the head symbol that sugar introduces (quote, unpack-iterable, annotate, `.`) has no text of its own;
-                # the parts of a dotted identifier are not separate forms in the source
+                # the parts of a dotted identifier are not separate forms in the source: no re-reading, but their
+                # region must still lie within the parent's
+                if all(getattr(ch, a, None) is not None for a in ("start_line", "start_column", "end_line", "end_column")):
+                    cs, ce = (ch.start_line, ch.start_column), (ch.end_line, ch.end_column)
+                    ps, pe = (m.start_line, m.start_column), (m.end_line, m.end_column)
+                    if not (ps <= cs and ce <= pe):
+                        errs.append("child %r (introduced by sugar) region %r-%r outside parent region %r-%r" % (ch, cs, ce, ps, pe))
+                else:
+                    errs.append("model %r (introduced by sugar) has no position" % (ch,))
                 continue
             if prev is not None and not sugar and hasattr(ch, "start_line") and hasattr(prev, "end_line"):
                 if (ch.start_line, ch.start_column) <= (prev.start_line, prev.start_column):
@@ -122,9 +133,9 @@ def spec(tier, seed):
         "grade": "R/D",
         "functions_encoded": ["hy.reader.reader.Reader.getc / pos bookkeeping / fill_pos", "HyReader.parse_one_form and every handler (positions of sugar, strings with newlines, bracket strings, f-strings)",
                               "hy.models.Object position attributes"],
-        "bounds": "%d multi-form programs (all form kinds incl. sugar, strings and bracket strings containing newlines, f-strings, nested and empty sequences); every gap between tokens chosen from "
+        "bounds": "%d multi-form programs (all form kinds incl. sugar (repeated), strings and bracket strings containing newlines / CR / CRLF, f-strings, nested and empty sequences); every gap between tokens chosen from "
                   "%r with period 4 (%d^4 layouts per program%s)" % (len(PROGRAMS), GAPS, ng, "" if tier == "thorough" else ", last selector restricted to 3 choices in quick"),
-        "outside": "other programs and gaps; tab width; positions inside f-string components (sub-string offsets); CRLF line ends",
+        "outside": "other programs and gaps; tab width; positions inside f-string components (sub-string offsets); lone CR as a line end",
         "stubs": ["reader call executed under crosshair.tracers.NoTracing"],
         "assumptions": ["region extraction is done by an independent line/column slicer on the source text (1-based, inclusive)"],
     }
